@@ -203,8 +203,9 @@ impl Property for C03 {
                 let mut id = base;
                 for i in 0..n as u64 {
                     terms.push((vec![id], derived_coeff(seed, i)));
-                    // repeat this id for the next term in about one case out of six
-                    if (derived_coeff(seed ^ 0x33, i).abs() * 16.0) as u64 % 6 != 0 {
+                    // repeat this id for the next term in about one case out of six (one function out of three is
+                    // strictly ascending, no id twice)
+                    if seed % 3 == 0 || (derived_coeff(seed ^ 0x33, i).abs() * 16.0) as u64 % 6 != 0 {
                         id += 1;
                     } else {
                         ctx.label("big-sorted-function-repeats-an-id");
